@@ -226,11 +226,12 @@ Proof. eexists. eexists. vm_compute. repeat split. discriminate. Qed.
    gen/BatchOrder.v is extracted from engine.py on every run (raise / mutation / commit
    events with the control structure of each of the 21 operation handlers and of the
    helpers they call).  No explicit `raise` is reachable while a loaded object or the
-   session holds an uncommitted change, except for the residual entries listed in
-   Batch/OrderCheck.v (path-insensitivity of the analysis; discharged dynamically by K);
+   session holds an uncommitted change, except for the residual pair listed in
+   Batch/OrderCheck.v allowed_late_raises (a guard correlation the analysis does not follow;
+   discharged dynamically by K);
    no handler ends with an uncommitted change; the placeholder is only set in a clean state. *)
 Theorem every_raise_precedes_every_mutation_in_the_source :
-  late_raises engine_methods operation_handlers = expected_late_raises /\
+  all_allowed (late_raises engine_methods operation_handlers) = true /\
   forallb (fun h => negb (ends_dirty_of engine_methods h)) operation_handlers = true /\
   List.length operation_handlers = 21%nat.
 Proof. exact (conj handlers_order_ok (conj handlers_end_clean handlers_counted)). Qed.
